@@ -86,6 +86,14 @@ class FakeWriter(object):
         return False
 
 
+class Endless(object):
+    """A server that never stops sending: piece(i) is handed to the client each time it waits for more.  After `limit`
+    pieces the execution is abandoned with `exc` (the client would go on for ever)."""
+    def __init__(self, piece, limit, exc):
+        self.piece, self.limit, self.exc = piece, limit, exc
+        self.count = 0
+
+
 class Endpoint(object):
     """One accepted connection, seen from the server script."""
     def __init__(self, net, address, server):
@@ -172,6 +180,13 @@ class Endpoint(object):
         if r._waiter is None or not self.out or self.client_closed:
             return
         item = self.out.popleft()
+        if isinstance(item, Endless):
+            if item.count >= item.limit:
+                asyncio.get_event_loop().abort = item.exc
+                return
+            self.out.appendleft(item)
+            item.count += 1
+            item = bytes(item.piece(item.count))
         if item is _EOF:
             r.feed_eof()
         elif isinstance(item, BaseException):
